@@ -160,6 +160,10 @@ package network
 //@   requires levelsOK(d)
 //@   ensures #every-edge-joins-a-level-and-its-previous-level graphOK(d)
 //@   ensures #every-level-is-a-node forall n string :: has(d.PrivilegeLevels, n) ==> has(d.privGraph, n)
+//@   ensures [C04 C17] #every-level-is-joined-to-its-previous-level-whether-or-not-it-can-be-escalated-into forall n string :: {has(d.PrivilegeLevels, n)} has(d.PrivilegeLevels, n) && prevOf(d, n) != "" ==> G(d, n, prevOf(d, n))
+//@   loop 1 invariant #every-level-seen-is-joined-to-its-previous-level forall n string :: {visited(n)} visited(n) && prevOf(d, n) != "" ==> G(d, n, prevOf(d, n))
+//@   loop 2 invariant forall n string :: {has(d.PrivilegeLevels, n)} has(d.PrivilegeLevels, n) && prevOf(d, n) != "" ==> G(d, n, prevOf(d, n))
+//@   loop 3 invariant forall n string :: {has(d.PrivilegeLevels, n)} has(d.PrivilegeLevels, n) && prevOf(d, n) != "" ==> G(d, n, prevOf(d, n))
 //@   loop 1 invariant levelsOK(d) && isnew(d.privGraph) && nodesOK(d) && (forall a string :: {has(d.privGraph, a)} has(d.privGraph, a) ==> isnew(get(d.privGraph, a)) && alive(get(d.privGraph, a)))
 //@   loop 1 invariant #so-far-only-edges-to-the-previous-level forall a string, b string :: {G(d, a, b)} G(d, a, b) ==> prevOf(d, a) == b && b != ""
 //@   loop 1 invariant #every-level-seen-is-a-node forall n string :: {visited(n)} visited(n) ==> has(d.privGraph, n)
